@@ -5,7 +5,7 @@ from __future__ import annotations
 import ast
 from typing import Optional
 
-from ..core.repo import (AnalysisError, Repo, call_name, calls_in, dotted, is_const, names_in,
+from ..core.repo import (AnalysisError, Repo, call_name, calls_in, dotted, func_params, is_const, names_in,
                          unparse)
 from ..domains.codec import SER
 from ..domains.effects import EffectAnalysis, Effect
@@ -193,14 +193,36 @@ def run(check, repo: Repo) -> None:
             # itself a write effect checked above; only generator helpers (context managers, whose
             # body's exceptions are thrown in at `yield`) decide cleanup themselves
             continue
-        removals = {e.node for e in a.effects if e.kind == "remove"}
+        absent = set()
         # `if os.path.exists(target): remove(target)` — on the False branch the target is absent
         for t in _exists_tests(a, include_handlers=True):
-            removals |= {n.id for n in c.nodes if n.kind == "branch" and n.test == t and not n.polarity}
+            absent |= {n.id for n in c.nodes if n.kind == "branch" and n.test == t and not n.polarity}
         writes = [e for e in a.effects if e.kind == "write"]
+        openers = [e for e in a.effects if e.kind in ("write", "creator") and "T" in e.path_tags and e.name.split(".")[-1] in TARGET_KIND]
         for e in writes:
+            # what the target is while this write runs: a file (zip archive) or a directory (zarr LocalStore) — decided by the opener that dominates it
+            kinds = {TARGET_KIND[o.name.split(".")[-1]] for o in openers if o.node == e.node or c.dominates(o.node, e.node)}
+            if len(kinds) > 1:
+                raise AnalysisError(f"{label}: target of `{e.text}` is opened both as file and as directory")
+            kind = next(iter(kinds), None)
+            removals = set(absent)
+            mismatched = []
+            for r in a.effects:
+                if r.kind != "remove":
+                    continue
+                rk = REMOVER_KIND.get(r.name.split(".")[-1])
+                if kind is None or rk is None or rk == kind:
+                    removals.add(r.node)
+                else:
+                    mismatched.append(r)
             # every way of leaving exceptionally after (or during) this write passes a removal
             leaks = c.raise_exit in _reach_noraise(a, e.node, removals)
+            if leaks and mismatched and c.raise_exit not in _reach_noraise(a, e.node, removals | {r.node for r in mismatched}):
+                check.violated("C08-R3", f"{label}: failure at or after `{e.name}` removes the partial target",
+                               f"the only cleanup on the failure path of `{e.text}` is `{mismatched[0].text}`, which removes a "
+                               f"{REMOVER_KIND[mismatched[0].name.split('.')[-1]]} — but the target is a {kind} here: the call fails (silently with ignore_errors) and the partial "
+                               f"{kind} stays on disk", mod.line(c.nodes[mismatched[0].node].stmt))
+                continue
             exempt = _completeness_marker_protects(a, e, marker_keys)
             check.decide(
                 (not leaks) or exempt, "C08-R3",
@@ -239,6 +261,8 @@ def run(check, repo: Repo) -> None:
     check.floor("staging/publication pairs", n_pairs, 4)
 
 
+TARGET_KIND = {"ZipFile": "file", "open": "file", "makedirs": "directory", "mkdir": "directory", "LocalStore": "directory", "copytree": "directory"}
+REMOVER_KIND = {"remove": "file", "unlink": "file", "rmtree": "directory", "rmdir": "directory", "removedirs": "directory"}
 NORAISE = {"os.path.exists", "os.path.lexists", "os.path.isdir", "os.path.isfile"}  # return False on error
 
 
